@@ -1,5 +1,6 @@
 """Shared machinery of the checks that go through the parser pipeline (harness kind P)."""
 from .common import *
+import re
 from . import gen, proj
 
 PARSER_ASSUMPTIONS = [
@@ -17,10 +18,43 @@ def build_parser(ctx, fmt="json", suppress=False):
     return cargo_build(ctx, "parser_h", features=feats if variant else None, variant=variant)
 
 
+_IDENT_CTX = re.compile(r"\{\{(.*?)\}\}|<([^<>]*)>|\$t\(([^,)]*)", re.S)
+
+
 def has_nonascii_ident_char(s):
     """inputs on which `syn::Ident` parsing is outside the model of Key.new: non-ASCII XID characters, Rust comments inside
-    the candidate identifier (`var_//x` lexes as the identifier `var_` followed by a comment) and raw identifiers"""
-    return any(ord(c) > 127 and ("a" + c).isidentifier() for c in s) or "//" in s or "/*" in s or "r#" in s
+    the candidate identifier (`var_//x` lexes as the identifier `var_` followed by a comment) and raw identifiers.
+    Only the places where an identifier is read count: inside `{{ }}`, inside `< >`; unbalanced leftovers (`{{` or `<`
+    without their closing delimiter) are judged to the end of the string."""
+    def odd(t):
+        return any(ord(c) > 127 and ("a" + c).isidentifier() for c in t) or "//" in t or "/*" in t or "r#" in t
+    rest = s
+    for m in _IDENT_CTX.finditer(s):
+        if odd(m.group(1) or m.group(2) or m.group(3) or ""):
+            return True
+    rest = _IDENT_CTX.sub(" ", s)
+    for opener in ("{{", "<"):
+        i = rest.find(opener)
+        if i >= 0 and odd(rest[i:]):
+            return True
+    return False
+
+
+def project_unmodelled(p):
+    """a project is outside the identifier model when a key name, or an identifier position of one of its strings, is"""
+    def key_odd(k):
+        return any(ord(c) > 127 for c in k) or "//" in k or "/*" in k or "r#" in k
+
+    def walk(j):
+        if isinstance(j, str):
+            return has_nonascii_ident_char(j)
+        if isinstance(j, dict):
+            if "o" in j:
+                return any(key_odd(k) or walk(v) for k, v in j["o"])
+            if "a" in j:
+                return any(walk(v) for v in j["a"])
+        return False
+    return any(walk(t) for t in p["files"].values())
 
 
 def run_projects(ctx, binp, projects, fmt="json", suppress=False, want_model=True):
@@ -61,8 +95,7 @@ def compare_model(ctx, name, p, o):
         return True
     if o["ci"] == o["cm"]:
         return True
-    text = json.dumps(project_text(p), ensure_ascii=False)
-    if has_nonascii_ident_char(text):
+    if project_unmodelled(p):
         ctx.count("unmodelled_nonascii_ident")
         return True
     note_model_mismatch(ctx, name, project_text(p), proj.first_diff(o["ci"], o["cm"]))
